@@ -4,8 +4,8 @@ import BornoModel.Lexer
 
 Each node keeps exactly the fields the Go node has and the interpreter or a diagnostic can
 observe (operator token type, the `Line` fields, lexemes of names).  One ghost item: an object
-literal keeps the *whole* parsed property list (duplicates included); `effectiveProps` gives the
-Go view (`Keys` in first-occurrence order, each with the last initialiser written for it).
+literal keeps the *whole* parsed property list (duplicates included) and whether a comma followed
+the last property; `effectiveProps` gives the Go view (`Keys` in first-occurrence order, each with the last initialiser written for it).
 -/
 namespace Borno
 
@@ -25,7 +25,7 @@ inductive Expr
   | logical (l : Expr) (op : TT) (r : Expr)
   | call (callee : Expr) (parenLine : Nat) (args : List Expr)
   | arrayLit (elems : List Expr)
-  | objectLit (props : List (Name × Expr))
+  | objectLit (props : List (Name × Expr)) (trailingComma : Bool)
   | arrayAccess (a : Expr) (i : Expr) (line : Nat)
   | propAccess (o : Expr) (prop : Name) (line : Nat)
   | assign (name : Name) (nameLine : Nat) (v : Expr) (line : Nat)
